@@ -170,9 +170,14 @@ func (vc *VC) step(fr *frame, st *State, instr ssa.Instruction) {
 		}
 		fr.env[in] = cv
 	case *ssa.Go:
-		vc.note("goroutine body of " + fr.fn.Name() + " is not followed (spawned function verified separately, if at all)")
-	case *ssa.Send, *ssa.Select, *ssa.MakeChan:
-		vc.fail("channel operation %T unsupported", in)
+		vc.stepGo(fr, st, in)
+	case *ssa.MakeChan:
+		vc.chanComps()
+		fr.env[in] = vc.newRef(st, in.Name()+":chan")
+	case *ssa.Send:
+		vc.stepSend(fr, st, in)
+	case *ssa.Select:
+		fr.env[in] = vc.stepSelect(fr, st, in)
 	case *ssa.SliceToArrayPointer, *ssa.MultiConvert:
 		vc.fail("instruction %T unsupported", in)
 	default:
@@ -257,7 +262,7 @@ func (vc *VC) unop(fr *frame, st *State, in *ssa.UnOp) Value {
 	case token.XOR:
 		return vc.script.Declare(in.Name()+":bitnot", SInt)
 	case token.ARROW:
-		vc.fail("channel receive unsupported")
+		return vc.stepRecv(fr, st, in)
 	}
 	vc.fail("unary operator %s unsupported", in.Op)
 	return nil
